@@ -6,6 +6,7 @@ import (
 	"fmt"
 	"reflect"
 	"strconv"
+	"strings"
 
 	"github.com/mattn/anko/ast"
 	"github.com/mattn/anko/env"
@@ -230,30 +231,15 @@ func equal(lhsV, rhsV reflect.Value) bool {
 	// while leaving the other side alone. Code further
 	// down takes care of converting ints and floats as needed.
 	if isNum(lhsV) && rhsV.Kind() == reflect.String {
-		// as below for a string on the left: a string formatted as an int stays an int
-		rhsI, err := tryToInt64(rhsV)
-		if err != nil {
-			rhsF, err := tryToFloat64(rhsV)
-			if err != nil {
-				// Couldn't convert RHS to a number, they can't be compared.
-				return false
-			}
-			rhsV = reflect.ValueOf(rhsF)
-		} else {
-			rhsV = reflect.ValueOf(rhsI)
+		var ok bool
+		if rhsV, ok = numeralValue(rhsV.String(), lhsV); !ok {
+			// RHS is not a numeral denoting a number LHS could be, they can't be equal.
+			return false
 		}
 	} else if lhsV.Kind() == reflect.String && isNum(rhsV) {
-		// If the LHS is a string formatted as an int, try that before trying float
-		lhsI, err := tryToInt64(lhsV)
-		if err != nil {
-			// if LHS is a float, e.g. "1.2", we need to set lhsV to a float64
-			lhsF, err := tryToFloat64(lhsV)
-			if err != nil {
-				return false
-			}
-			lhsV = reflect.ValueOf(lhsF)
-		} else {
-			lhsV = reflect.ValueOf(lhsI)
+		var ok bool
+		if lhsV, ok = numeralValue(lhsV.String(), rhsV); !ok {
+			return false
 		}
 	}
 
@@ -292,6 +278,28 @@ func equal(lhsV, rhsV reflect.Value) bool {
 	}
 
 	return reflect.DeepEqual(lhsV.Interface(), rhsV.Interface())
+}
+
+// numeralValue returns the number the decimal numeral s denotes, for comparing it with the
+// number other: an int64 when s is formatted as an int (e.g. "12"), otherwise a float64
+// (e.g. "1.2"). Only decimal numerals denote numbers ("0x1p4", "1_0" and "Inf" do not), and
+// an integer numeral outside int64 does not denote any integer.
+func numeralValue(s string, other reflect.Value) (reflect.Value, bool) {
+	if s == "" || strings.Trim(s, "0123456789+-.eE") != "" {
+		return reflect.Value{}, false
+	}
+	if i, err := strconv.ParseInt(s, 10, 64); err == nil {
+		return reflect.ValueOf(i), true
+	}
+	f, err := strconv.ParseFloat(s, 64)
+	if err != nil {
+		return reflect.Value{}, false
+	}
+	otherIsFloat := other.Kind() == reflect.Float32 || other.Kind() == reflect.Float64
+	if !otherIsFloat && strings.Trim(s, "0123456789+-") == "" {
+		return reflect.Value{}, false
+	}
+	return reflect.ValueOf(f), true
 }
 
 // isHashable returns true if the value can be used as a map key without
